@@ -18,4 +18,14 @@ if int(n) >= 4 and mech:
     text += f"\n\nFor this variant, look first at this mechanism of the property (but any site that breaks the property is fine if this one offers nothing subtle): {m['name']} - {m['where']}. Avoid the most common seeded bugs (plain off-by-one on a length limit, dropping one header, comparing a prefix of a signature); prefer state carried across calls/frames, rarely taken branches, error paths, interactions of two features, boundary values of time/size, and behaviour that only shows under a particular configuration.\n"
 if int(n) >= 5:
     text += "\nThe framework under evaluation decides the property by RUNNING the real code under generated workloads (random and hostile inputs, systematic per-member / per-operation sweeps, single-fault injection, differential comparison with reference implementations) and watching for violations. Aim for a change that such a framework is likely to MISS although it genuinely breaks the property: it should need a rare COMBINATION of conditions (two or three unusual values at once, a specific size or alignment, a specific order of two operations, a particular configuration together with a particular input, a value at the edge of a numeric range, the second occurrence of something) rather than one unusual value alone. It must still be a realistic programming slip, and your demonstration must still show a genuine violation of the property as stated.\n"
+# from variant 10 on, each sub-agent is also asked for one *kind of manifestation* (the kinds named in the task brief),
+# rotating with the variant number, so that the seeded changes stop repeating the unusual-input kind
+KINDS = [
+    "TWO COOPERATING SITES: the change should touch (or rely on) two places that each look fine alone - e.g. a helper whose contract is subtly changed and one caller among several that depended on the old contract; a value normalised in one place and compared un-normalised in another; a default introduced in one layer that a check in another layer then no longer sees.",
+    "A MULTI-STEP SEQUENCE: the change should need state carried across several requests or operations on the SAME service instance / the same store (something cached, reused, left behind or not reset by an earlier request - in particular by an earlier FAILED or unusual request - that changes the treatment of a later one), or a particular order of two or three operations.",
+    "AN INTERLEAVING OR TIMING: the change should need two requests in flight at once on one service instance or one store (shared state without adequate synchronisation, a check-then-act window, a lock held too briefly), or a particular timing / order of frame arrivals, wake-ups and polls, so that running requests strictly one after the other with ready bodies never shows it.",
+    "A FAULT AT A PARTICULAR POINT: the change should need an error, a cancellation (the request future dropped), a panic in user code, an I/O failure or a crash at one particular step (and perhaps a particular earlier state) so that fault-free runs never show it - error paths, clean-up paths, destructors, partial progress that is not rolled back, an error that is swallowed or turned into success.",
+]
+if int(n) >= 10:
+    text += "\nKIND OF MANIFESTATION wanted for this variant (if the property really offers nothing of this kind, say so in meta.json and fall back to the nearest kind): " + KINDS[int(n) % 4] + "\n"
 print(text.format(pid=pid, n=n, wt=wt, out=out, title=p['title'], statement=p['statement'], quant=p['quantifier']['text'], why=p['why_tests_cant'], files=', '.join(p['anchors']['files'])))
